@@ -98,6 +98,7 @@ static void build_alphabet(int full){
 static const char *valname(int dim,int val){
    static char b[4][24]; static int r; char *o=b[r=(r+1)&3];
    if (dim==D_DUR) return DURN[val];
+   if (dim==D_MDB && val<0){ snprintf(o,24,"%d(abs)",-val); return o; }
    if (val==OPUS_AUTO) return "auto";
    if (val==OPUS_BITRATE_MAX) return "max";
    if (dim==D_BW||dim==D_MAXBW){ static const char *const n[5]={"NB","MB","WB","SWB","FB"}; return n[val-OPUS_BANDWIDTH_NARROWBAND]; }
@@ -156,7 +157,7 @@ static void load_signals(int Fs,int ch){
 static mc_ctr *c_trans,*c_dec,*c_runs,*c_refdec,*c_skipcfg,*c_refused,*c_empty,*c_ctlrej;
 static mc_set *S_states,*S_obs;
 static long *MEET;          /* [base][10 tree + 10 ref decoders]: packets decoded by that decoder for that base */
-static int g_frames, g_ndec, g_k, g_stack, g_allfam, g_mink, g_split;
+static int g_frames, g_ndec, g_k, g_stack, g_allfam, g_mink, g_split, g_sweep, g_sweepall;
 
 /* ------------------------------------------------------------------ encoder / decoder objects */
 typedef struct { int api; /*0 single,1 multistream,2 projection*/ void *st; int sz; int Fs,ch,streams,coupled; } encobj;
@@ -225,7 +226,8 @@ static int apply_diff(encobj *e,const int *a,const int *b){
 static int step(encobj *e,const int *v,int fam,int entry,long *pos,decobj *D,int nd,int base,const char *what,int frame){
    int Fs=e->Fs, ch=e->ch, fsz=(int)((long)DUR48[v[D_DUR]]*Fs/48000), mdb=v[D_MDB], n, i, S=e->api?e->streams:1, need, mode=0;
    size_t ss = entry==0?sizeof(short):4; void *in; unsigned char *pkt; opus_uint32 ge; char sig[96];
-   if (e->api) mdb = mdb*S;                                          /* multistream: the buffer alphabet is per stream */
+   if (mdb<0) mdb=-mdb;                                              /* sweep: absolute size of the whole packet buffer */
+   else if (e->api) mdb = mdb*S;                                     /* multistream: the buffer alphabet is per stream */
    need = e->api ? (v[D_DUR]==7?3*S:2*S) : ((v[D_DUR]==7)?2:1);      /* smallest buffer for which the statement promises success */
    if (*pos+fsz>SBN) *pos=0;
    in=malloc((size_t)fsz*ch*ss);
@@ -423,54 +425,95 @@ static const layout LAY[]={
 #define NLAY_BOUND 14
 #define NLAY_ALL 18
 static int g_nlay;
-static void ms_item(long it,void *ctx){
-   int a=(int)(it%(NS+1)), bi=(int)(it/(NS+1)), li=bi/15, fs_i=(bi/3)%5, app=bi%3, Fs=FS[fs_i], k, dflt[NDIM]; const layout *L=&LAY[li];
-   int streams=L->streams, coupled=L->coupled, ch=L->channels; unsigned char map[20]; encobj e; (void)ctx;
-   unsigned char *mtx=NULL; opus_int32 msz=0;
-   load_signals(Fs,ch); vec_default(dflt);
+/* one multistream/projection session: encoder of layout li at (fs_i, app) with vector v; either g_frames frames at v's buffer size
+ * (sweep_to==0) or one continuous stream whose max_data_bytes (absolute, whole packet) takes EVERY value sweep_from..sweep_to, one per frame */
+static void ms_run(int li,int fs_i,int app,const int *v0,int fam,int entry,long rc,int sweep_from,int sweep_to){
+   const layout *L=&LAY[li]; int Fs=FS[fs_i], streams=L->streams, coupled=L->coupled, ch=L->channels, dflt[NDIM], v[NDIM];
+   unsigned char map[20], idmap[20], *mtx=NULL; opus_int32 msz=0; encobj e; decobj D[6]; int nd=0,f,i,r; long pos=0;
+   load_signals(Fs,ch); vec_default(dflt); memcpy(v,v0,sizeof v);
    memcpy(map,L->map,sizeof map);
    e.api = L->kind==2?2:1; e.Fs=Fs; e.ch=ch;
    e.sz = L->kind==0?opus_multistream_encoder_get_size(streams,coupled):L->kind==1?opus_multistream_surround_encoder_get_size(ch,1):opus_projection_ambisonics_encoder_get_size(ch,3);
    if (e.sz<=0){ fprintf(stderr,"bad layout %s\n",L->name); exit(2); }
    e.st=malloc(e.sz);
-   {
-      int v[NDIM]; vec_default(v); if(a<NS) v[SG[a].dim]=SG[a].val;
+   mc_case("encode_or_decode","ms %s Fs=%d app=%s cfg=[%s] signal=%s entry=%s max_data_bytes sweep %d..%d",L->name,Fs,APPN[app],vec_str(v),famname(fam),ENTN[entry],sweep_from,sweep_to);
+   memset(e.st,0x3C,e.sz);
+   if (L->kind==0) r=opus_multistream_encoder_init(e.st,Fs,ch,streams,coupled,map,APP[app]);
+   else if (L->kind==1) r=opus_multistream_surround_encoder_init(e.st,Fs,ch,1,&streams,&coupled,map,APP[app]);
+   else r=opus_projection_ambisonics_encoder_init(e.st,Fs,ch,3,&streams,&coupled,APP[app]);
+   if (r!=OPUS_OK){ fprintf(stderr,"ms init failed %s: %d\n",L->name,r); exit(2); }
+   e.streams=streams; e.coupled=coupled;
+   if (apply_diff(&e,dflt,v)) MC_INC(c_ctlrej);          /* a multistream ctl may be applied to some streams and then rejected: the object stays valid, so the run goes on */
+   for(i=0;i<streams+coupled;i++) idmap[i]=(unsigned char)i;
+   if (L->kind==2){
+      int err; opus_projection_encoder_ctl(e.st,OPUS_PROJECTION_GET_DEMIXING_MATRIX_SIZE(&msz)); mtx=malloc(msz);
+      opus_projection_encoder_ctl(e.st,OPUS_PROJECTION_GET_DEMIXING_MATRIX(mtx,msz));
+      D[nd].kind=K_TREEPROJ; D[nd].fs_i=(int)(rc%5); D[nd].Fs=FS[D[nd].fs_i]; D[nd].ch=ch; D[nd].api=(int)(rc%3);
+      D[nd].st=opus_projection_decoder_create(D[nd].Fs,ch,streams,coupled,mtx,msz,&err); if(!D[nd].st){ fprintf(stderr,"proj dec create failed %d\n",err); exit(2);} nd++;
+      D[nd].kind=K_TREEMS; D[nd].fs_i=(int)((rc+1)%5); D[nd].Fs=FS[D[nd].fs_i]; D[nd].ch=streams+coupled; D[nd].api=(int)((rc+1)%3);
+      D[nd].st=opus_multistream_decoder_create(D[nd].Fs,streams+coupled,streams,coupled,idmap,&err); if(!D[nd].st) exit(2); nd++;
+      D[nd].kind=K_REFMS; D[nd].fs_i=(int)((rc+2)%5); D[nd].Fs=FS[D[nd].fs_i]; D[nd].ch=streams+coupled; D[nd].api=(int)((rc+2)%3);
+      D[nd].st=ref_opus_multistream_decoder_create(D[nd].Fs,streams+coupled,streams,coupled,idmap,&err); if(!D[nd].st) exit(2); nd++;
+   } else {
+      int err, nt = (g_ndec>=5 && !sweep_to)?5:2, t;
+      for(t=0;t<nt;t++){ D[nd].kind=K_TREEMS; D[nd].fs_i=(int)((rc+t*2)%5); D[nd].Fs=FS[D[nd].fs_i]; D[nd].ch=ch; D[nd].api=(int)((rc+t)%3);
+         D[nd].st=opus_multistream_decoder_create(D[nd].Fs,ch,streams,coupled,map,&err); if(!D[nd].st){ fprintf(stderr,"ms dec create failed %d\n",err); exit(2);} nd++; }
+      D[nd].kind=K_REFMS; D[nd].fs_i=(int)((rc+1)%5); D[nd].Fs=FS[D[nd].fs_i]; D[nd].ch=ch; D[nd].api=(int)((rc+2)%3);
+      D[nd].st=ref_opus_multistream_decoder_create(D[nd].Fs,ch,streams,coupled,map,&err); if(!D[nd].st) exit(2); nd++;
+   }
+   MC_INC(c_runs);
+   if (!sweep_to){ for(f=0;f<g_frames;f++) if (step(&e,v,fam,entry,&pos,D,nd,30+li,L->name,f)==1) break; }
+   else { int m; for(m=sweep_from;m<=sweep_to;m++){ v[D_MDB]=-m; if (step(&e,v,fam,entry,&pos,D,nd,30+li,L->name,m-sweep_from)==1) break; } }
+   for(i=0;i<nd;i++){ if(D[i].kind==K_TREEPROJ) opus_projection_decoder_destroy(D[i].st); else if(D[i].kind==K_TREEMS) opus_multistream_decoder_destroy(D[i].st); else ref_opus_multistream_decoder_destroy(D[i].st); }
+   free(mtx); free(e.st);
+}
+static int lay_streams(int li){ const layout *L=&LAY[li]; if(L->kind==0) return L->streams; if(L->kind==1) return L->channels<=2?1:L->channels==3?2:L->channels==4?2:L->channels==5?3:4; return (L->channels+1)/2; }
+static long ms_nitems(void){ return (long)g_nlay*15*(NS+1); }
+/* buffer-filling configurations for the max_data_bytes sweep: the packet size is then dictated by the buffer, so every threshold of the
+ * per-stream budget arithmetic (self-delimiting length 1->2 bytes at 252/253, per-stream reserves, 1276 cap) is crossed exactly */
+#define NSWEEPCFG 4
+static void ms_item(long it,void *ctx){
+   (void)ctx;
+   if (it<ms_nitems()){
+      int a=(int)(it%(NS+1)), bi=(int)(it/(NS+1)), li=bi/15, fs_i=(bi/3)%5, app=bi%3, k, v[NDIM];
+      vec_default(v); if(a<NS) v[SG[a].dim]=SG[a].val;
       for(k=0;k<NFAMS;k++){
-         decobj D[6]; int nd=0,f,i,fam=FAMS[k],entry,r; long pos=0, rc=(long)a*NFAMS+k+bi; unsigned char idmap[20];
+         int fam=FAMS[k]; long rc=(long)a*NFAMS+k+bi;
          if (!g_allfam && NFAMS>1 && (a+bi)%NFAMS!=k) continue;                       /* --allfam 0 (quick): families rotate over the deviations */
-         entry = fam>=SIG_NFAM ? 2 : (int)((a+k+bi)%3);
-         mc_case("encode_or_decode","ms %s Fs=%d app=%s cfg=[%s] signal=%s entry=%s",L->name,Fs,APPN[app],vec_str(v),famname(fam),ENTN[entry]);
-         memset(e.st,0x3C,e.sz);
-         if (L->kind==0) r=opus_multistream_encoder_init(e.st,Fs,ch,streams,coupled,map,APP[app]);
-         else if (L->kind==1) r=opus_multistream_surround_encoder_init(e.st,Fs,ch,1,&streams,&coupled,map,APP[app]);
-         else r=opus_projection_ambisonics_encoder_init(e.st,Fs,ch,3,&streams,&coupled,APP[app]);
-         if (r!=OPUS_OK){ fprintf(stderr,"ms init failed %s: %d\n",L->name,r); exit(2); }
-         e.streams=streams; e.coupled=coupled;
-         if (apply_diff(&e,dflt,v)) MC_INC(c_ctlrej);          /* a multistream ctl may be applied to some streams and then rejected: the object stays valid, so the run goes on */
-         /* decoders */
-         for(i=0;i<streams+coupled;i++) idmap[i]=(unsigned char)i;
-         if (L->kind==2){
-            int err; if(!mtx){ opus_projection_encoder_ctl(e.st,OPUS_PROJECTION_GET_DEMIXING_MATRIX_SIZE(&msz)); mtx=malloc(msz); }
-            opus_projection_encoder_ctl(e.st,OPUS_PROJECTION_GET_DEMIXING_MATRIX(mtx,msz));
-            D[nd].kind=K_TREEPROJ; D[nd].fs_i=(int)(rc%5); D[nd].Fs=FS[D[nd].fs_i]; D[nd].ch=ch; D[nd].api=(int)(rc%3);
-            D[nd].st=opus_projection_decoder_create(D[nd].Fs,ch,streams,coupled,mtx,msz,&err); if(!D[nd].st){ fprintf(stderr,"proj dec create failed %d\n",err); exit(2);} nd++;
-            D[nd].kind=K_TREEMS; D[nd].fs_i=(int)((rc+1)%5); D[nd].Fs=FS[D[nd].fs_i]; D[nd].ch=streams+coupled; D[nd].api=(int)((rc+1)%3);
-            D[nd].st=opus_multistream_decoder_create(D[nd].Fs,streams+coupled,streams,coupled,idmap,&err); if(!D[nd].st) exit(2); nd++;
-            D[nd].kind=K_REFMS; D[nd].fs_i=(int)((rc+2)%5); D[nd].Fs=FS[D[nd].fs_i]; D[nd].ch=streams+coupled; D[nd].api=(int)((rc+2)%3);
-            D[nd].st=ref_opus_multistream_decoder_create(D[nd].Fs,streams+coupled,streams,coupled,idmap,&err); if(!D[nd].st) exit(2); nd++;
-         } else {
-            int err, nt = g_ndec>=5?5:2, t;
-            for(t=0;t<nt;t++){ D[nd].kind=K_TREEMS; D[nd].fs_i=(int)((rc+t*2)%5); D[nd].Fs=FS[D[nd].fs_i]; D[nd].ch=ch; D[nd].api=(int)((rc+t)%3);
-               D[nd].st=opus_multistream_decoder_create(D[nd].Fs,ch,streams,coupled,map,&err); if(!D[nd].st){ fprintf(stderr,"ms dec create failed %d\n",err); exit(2);} nd++; }
-            D[nd].kind=K_REFMS; D[nd].fs_i=(int)((rc+1)%5); D[nd].Fs=FS[D[nd].fs_i]; D[nd].ch=ch; D[nd].api=(int)((rc+2)%3);
-            D[nd].st=ref_opus_multistream_decoder_create(D[nd].Fs,ch,streams,coupled,map,&err); if(!D[nd].st) exit(2); nd++;
-         }
-         MC_INC(c_runs);
-         for(f=0;f<g_frames;f++) if (step(&e,v,fam,entry,&pos,D,nd,30+li,L->name,f)==1) break;
-         for(i=0;i<nd;i++){ if(D[i].kind==K_TREEPROJ) opus_projection_decoder_destroy(D[i].st); else if(D[i].kind==K_TREEMS) opus_multistream_decoder_destroy(D[i].st); else ref_opus_multistream_decoder_destroy(D[i].st); }
+         ms_run(li,fs_i,app,v,fam, fam>=SIG_NFAM?2:(int)((a+k+bi)%3), rc,0,0);
+      }
+   } else {
+      /* sweep items: (layout, Fs, application, filling configuration [, signal, duration]) x EVERY max_data_bytes in 1..g_sweep*streams+8 */
+      long si=it-ms_nitems(); int c=(int)(si%NSWEEPCFG), bi=(int)(si/NSWEEPCFG), li=bi/15, fs_i=(bi/3)%5, app=bi%3, S=lay_streams(li), v[NDIM], hi, x;
+      static const int sfam[3]={SIG_NOISE,SIG_SQUARE,SIG_SPEECH}; static const int sdur[3]={3,2,5};
+      if (!g_sweepall && (app!=(li+fs_i)%3 || S>3)) return;       /* --sweepall 0 (quick): layouts with <=3 streams only, the application rotates over (layout, Fs) */
+      for(x=0;x<(g_sweepall?3:1);x++){
+         int rot = app==(li+fs_i)%3;
+         if (x>0 && !rot) continue;                                                    /* the other (signal, duration) pairs: application rotates */
+         hi = (g_sweepall && x==0 && rot && c<2 && S<=3 ? 1300 : g_sweep)*S+8;         /* thorough: up to the 1276-byte-per-stream cap for <=3 streams */
+         vec_default(v); v[D_BITRATE]= (c&2)?510000:OPUS_BITRATE_MAX; v[D_VBR]= (c&1)?0:1; v[D_DUR]=sdur[x];
+         ms_run(li,fs_i,app,v,sfam[x],(int)((si+x)%3),si+x,1,hi);
       }
    }
-   free(mtx); free(e.st);
+}
+
+/* single-stream encoder: EVERY max_data_bytes in 1..1500 on one continuous stream under buffer-filling settings
+ * item = (base, filling configuration, frame duration) */
+static void sweep_item(long it,void *ctx){
+   int base=(int)(it/36), c=(int)((it/9)%4), d=(int)(it%9), v[NDIM], dflt[NDIM], x; (void)ctx;
+   if (!g_sweepall){ if (c>=2 || d!=3+(base+c)%3) return; }              /* quick: MAX bitrate VBR+CBR, one of 20/40/60 ms per (base, cfg), rotating */
+   else if (c>=2 && (d<3||d>5)) return;                                   /* thorough: 510 kb/s settings only at 20/40/60 ms */
+   load_signals(FS[base/6],1+(base/3)%2); vec_default(dflt);
+   for(x=0;x<((g_sweepall && d>=3 && d<=5)?2:1);x++){
+      encobj e; decobj D[14]; int nd,m,fam=x?SIG_SQUARE:SIG_NOISE,entry=(int)((it+x)%3); long pos=0;
+      vec_default(v); v[D_BITRATE]=(c&2)?510000:OPUS_BITRATE_MAX; v[D_VBR]=(c&1)?0:1; v[D_DUR]=d;
+      mc_case("encode_or_decode","sweep base=%d Fs=%d ch=%d app=%s cfg=[%s] signal=%s entry=%s max_data_bytes 1..1500",base,FS[base/6],1+(base/3)%2,APPN[base%3],vec_str(v),famname(fam),ENTN[entry]);
+      enc_fresh(&e,base);
+      if (apply_diff(&e,dflt,v)){ MC_INC(c_skipcfg); return; }
+      nd=dec_set(D,it+x,base);
+      MC_INC(c_runs);
+      for(m=1;m<=1500;m++){ v[D_MDB]=m; if (step(&e,v,fam,entry,&pos,D,nd,base,basename_(base),m-1)==1) break; }
+   }
 }
 
 /* ------------------------------------------------------------------ self-checks */
@@ -488,7 +531,7 @@ int main(int argc,char **argv){
    mode=mc_arg_s("--mode","grid"); MC.part=mc_arg_s("--part",mode);
    g_k=(int)mc_arg("--k",2); g_frames=(int)mc_arg("--frames",MC.tier?6:5); g_ndec=(int)mc_arg("--ndec",MC.tier?10:2);
    full=(int)mc_arg("--alpha",MC.tier?1:0); sigset=(int)mc_arg("--sigset",MC.tier?1:0); g_stack=(int)mc_arg("--stack",0);
-   g_nlay=(int)mc_arg("--nlay",MC.tier?NLAY_ALL:NLAY_BOUND); g_allfam=(int)mc_arg("--allfam",MC.tier?1:0); g_mink=(int)mc_arg("--mink",0); g_split=(int)mc_arg("--split",g_k>=3);
+   g_nlay=(int)mc_arg("--nlay",MC.tier?NLAY_ALL:NLAY_BOUND); g_allfam=(int)mc_arg("--allfam",MC.tier?1:0); g_mink=(int)mc_arg("--mink",0); g_split=(int)mc_arg("--split",g_k>=3); g_sweep=(int)mc_arg("--sweep",260); g_sweepall=(int)mc_arg("--sweepall",MC.tier?1:0);
    build_alphabet(full);
    check_defaults();
    NFAMS=0;
@@ -509,7 +552,8 @@ int main(int argc,char **argv){
    mc_info("mode=%s k=%d frames=%d ndec=%d alphabet=%s singles=%d families=%d",mode,g_k,g_frames,g_ndec,full?"full":"reduced",NS,NFAMS);
    if (!strcmp(mode,"grid")){ if (g_k>=3) g_split=1; nitems = !g_split ? 30L*(NS+1) : 30L*(NS+1)*(NS+1); mc_par(nitems,grid_item,NULL); }
    else if (!strcmp(mode,"hist")){ mc_par(30L*(NS+1),hist_item,NULL); }
-   else if (!strcmp(mode,"ms")){ mc_par((long)g_nlay*15*(NS+1),ms_item,NULL); }
+   else if (!strcmp(mode,"ms")){ mc_par(ms_nitems()+(g_sweep>0?(long)g_nlay*15*NSWEEPCFG:0),ms_item,NULL); }
+   else if (!strcmp(mode,"sweep")){ mc_par(30L*36,sweep_item,NULL); }
    else { fprintf(stderr,"unknown mode\n"); return 2; }
    {
       mc_ctr *st=mc_counter("states"),*ev=mc_counter("evaluations"),*dn=mc_counter("distinct_nontrivial"),*mm=NULL,*mr=NULL;
